@@ -410,7 +410,7 @@ pub fn run(ctx: &mut Ctx) {
     let d = donors();
 
     // (a) decoder: mutated generated messages and vectors, all 17 configurations
-    let n = ctx.n(24_000, 1_500_000);
+    let n = ctx.n(24_000, 4_000_000);
     ctx.cases("decoder", n, |ctx, case, rng| {
         let base = if case % 7 == 0 { d[(case / 7 % 5) as usize].clone() } else { base_message(rng, &key_spec) };
         let rounds = 1 + rng.below(2);
@@ -435,7 +435,7 @@ pub fn run(ctx: &mut Ctx) {
     });
 
     // (b) every truncation of valid messages
-    let n = ctx.n(300, 20_000);
+    let n = ctx.n(300, 40_000);
     ctx.cases("truncations", n, |ctx, _case, rng| {
         let base = base_message(rng, &key_spec);
         let fix_len = rng.bool();
@@ -453,7 +453,7 @@ pub fn run(ctx: &mut Ctx) {
     });
 
     // (c) random bytes up to 64 KiB
-    let n = ctx.n(2_000, 100_000);
+    let n = ctx.n(2_000, 300_000);
     ctx.cases("random-bytes", n, |ctx, _case, rng| {
         let b = mutate::random_message(rng);
         decode_everything(ctx, &b, &key, rng, "random");
@@ -461,10 +461,10 @@ pub fn run(ctx: &mut Ctx) {
     });
 
     // (d) clients in every credential state reachable in <= 6 operations
-    let n = ctx.n(24_000, 1_200_000);
+    let n = ctx.n(24_000, 3_000_000);
     ctx.cases("client", n, |ctx, _case, rng| client_case(ctx, rng, &key_spec));
 
     // (e) stream reassembler
-    let n = ctx.n(8_000, 400_000);
+    let n = ctx.n(8_000, 1_500_000);
     ctx.cases("reassembler", n, |ctx, _case, rng| reassembler_case(ctx, rng, &key_spec));
 }
